@@ -12,6 +12,7 @@ import (
 	orig "net"
 	"os"
 	"sort"
+	"syscall"
 	"time"
 	"unsafe"
 
@@ -96,6 +97,9 @@ func ListenTCP(network string, laddr *orig.TCPAddr) (*VListener, error) {
 }
 
 func (l *VListener) Accept() (orig.Conn, error) {
+	if l == nil {
+		return nil, syscall.EINVAL
+	}
 	vrt.Block(vrt.KNet, uintptr(unsafe.Pointer(l)), "Listener.Accept", func() bool { return l.closed || len(l.backlog) > 0 })
 	if len(l.backlog) == 0 {
 		return nil, errClosed
@@ -107,6 +111,9 @@ func (l *VListener) Accept() (orig.Conn, error) {
 }
 
 func (l *VListener) Close() error {
+	if l == nil { // like (*net.TCPListener)(nil).Close(): the code under test stores the typed nil of a failed ListenTCP in an interface
+		return syscall.EINVAL
+	}
 	if vrt.Active() {
 		vrt.Point(vrt.KNet, 0)
 	}
